@@ -509,7 +509,7 @@ def effect_case(args) -> dict:
                      {"fmt": fmt, "spec": spec, "choices": choices,
                       "effects": True}))
 
-        ex = Explorer(run, bound=bound, cache=False, max_executions=3000)
+        ex = Explorer(run, bound=bound, cache=False, max_executions=6000)
         ex.explore(on_result)
         out["executions"] = ex.executions
         out["transitions"] = ex.transitions
@@ -600,8 +600,9 @@ def run(ctx):
                   ("fb", SPECS[5], 1), ("npz", SPECS[1], 1),
                   ("tfrec", SPECS[0], 1)]
         if ctx.tier == "thorough":
-            etasks = [(f, sp, 2) for f in ("fb", "npz", "tfrec")
-                      for sp in SPECS[:6]]
+            # three busy writers: bound 2 exceeds the execution cap
+            etasks = [(f, sp, 1 if sum(1 for w in sp if w) >= 3 else 2)
+                      for f in ("fb", "npz", "tfrec") for sp in SPECS[:6]]
         ee = et = 0
         smp = None
         for r in ex.map(effect_case, etasks):
@@ -619,7 +620,7 @@ def run(ctx):
                               msg, c)
         ctx.part("file-system-effect granularity: every open / rename / "
                  "mkdir of a worker inside the dataset is a step; preemption "
-                 f"bound {2 if ctx.tier == 'thorough' else 1}",
+                 f"bound {'2 (1 for three busy writers)' if ctx.tier == 'thorough' else 1}",
                  writer_lists=len(etasks), executions=ee, transitions=et)
         if smp:
             ctx.sample({"effects_schedule": smp})
